@@ -149,6 +149,12 @@ def run(ctx):
             else:
                 parts = parts + [parts[0]]
             cases.append(('file', '\n\n'.join(parts) + '\n'))
+    # `-p` takes ONE property: several well-formed properties in one argument do not parse as a property (they are a specification)
+    for i in range(max(6, n // 10)):
+        k = rng.randrange(2, 4)
+        parts = rng.sample(plain, min(k, len(plain))) if plain else []
+        if len(parts) >= 2:
+            cases.append(('-p', rng.choice([' ', '\n', '\n\n']).join(parts)))
     cases.append(('file', ''))
     cases.append(('missing-file', None))
     cases.append(('-p', ''))
